@@ -395,12 +395,11 @@ PRELUDE = r"""
                      "")))
 (define (c15-hex n) (number->string n 16))
 (define (c15-hist api ht0 keys ops)
-  (let ((ht ht0) (n (vector-length keys)) (out (open-output-string))
+  (let ((ht ht0) (other #f) (n (vector-length keys)) (out (open-output-string))
         (t-set! (vector-ref api 0)) (t-del! (vector-ref api 1)) (t-ref (vector-ref api 2)) (t-size (vector-ref api 3))
-        (t-alist (vector-ref api 4)) (t-copy (vector-ref api 5)) (t-upd (vector-ref api 6)))
+        (t-alist (vector-ref api 4)) (t-copy (vector-ref api 5)) (t-upd (vector-ref api 6)) (t-copy-aside (vector-ref api 7)))
     (define (kidx k) (let lp ((i 0)) (cond ((= i n) -1) ((eq? (vector-ref keys i) k) i) (else (lp (+ i 1))))))
-    (define (dump first?)
-      (if (not first?) (write-string "|" out))
+    (define (dump1 ht)
       (write-string (c15-hex (t-size ht)) out)
       (write-string "/" out)
       (write-string (number->string (vector-length (slot-ref (type-of ht) ht 0))) out)
@@ -417,20 +416,29 @@ PRELUDE = r"""
                (let ((v (t-ref ht (vector-ref keys i) #f)))
                  (write-string (if v (c15-hex v) "-") out))
                (lp (+ i 1))))))
+    (define (dump first?)
+      (if (not first?) (write-string "|" out))
+      (dump1 ht)
+      (cond (other (write-string "&" out) (dump1 other))))
     (let lp ((ops ops) (first? #t))
       (cond ((pair? ops)
              (let ((o (car ops)))
                (case (car o)
                  ((s) (t-set! ht (vector-ref keys (cadr o)) (car (cddr o))))
                  ((d) (t-del! ht (vector-ref keys (cadr o))))
-                 ((c) (set! ht (t-copy ht)))
+                 ((c) (set! other ht) (set! ht (t-copy ht)))
+                 ((k) (set! other (t-copy-aside ht)))
+                 ((x) (if other (let ((tmp ht)) (set! ht other) (set! other tmp))))
                  ((u) (t-upd ht (vector-ref keys (cadr o)) (lambda (x) (+ x 1)) (car (cddr o))))))
              (dump first?)
              (lp (cdr ops) #f))))
     (get-output-string out)))
-(define c15-api69 (vector hash-table-set! hash-table-delete! hash-table-ref/default hash-table-size hash-table->alist hash-table-copy hash-table-update!/default))
+(define c15-api69 (vector hash-table-set! hash-table-delete! hash-table-ref/default hash-table-size hash-table->alist hash-table-copy hash-table-update!/default
+                          hash-table-copy))
+;; (srfi 125): the copy the history continues on is the mutable variant, the copy kept aside the immutable one
 (define c15-api125 (vector h125:hash-table-set! h125:hash-table-delete! h125:hash-table-ref/default h125:hash-table-size h125:hash-table->alist
-                           (lambda (t) (h125:hash-table-copy t #t)) h125:hash-table-update!/default))
+                           (lambda (t) (h125:hash-table-copy t #t)) h125:hash-table-update!/default
+                           (lambda (t) (h125:hash-table-copy t))))
 """
 
 KINDS = {
@@ -470,7 +478,8 @@ def run(ctx):
         "association-list spec; (srfi 125) histories vs the spec.  non-trivial = pair with a heap object / history with >= 1 regrow; distinct by canonical input")
     # (G)
     d = ctx.build("default")
-    from gen import c15_consts
+    from gen import c15_consts, c15_equiv
+    equiv_ok = c15_equiv.regen(ctx, B.REPO)
     try:
         C, shape_errs = c15_consts.regen(ctx, d)
     except Exception as e:
@@ -496,6 +505,7 @@ def run(ctx):
     corpus_first(ctx, d, exe, emb, C)
     outer_pairs(ctx, d, exe, C, 1000 if not T else 50000)
     outer_cycles(ctx, d, 60 if not T else 2000)
+    graphs(ctx, d, exe, C, *((2, 40, [20000]) if not T else (12, 1500, [10001, 20000, 50000])))
     t2 = time.time()
     histories(ctx, d, exe, C, (170, 10) if not T else (2200, 120))
     ctx.note("wall: inner %.0fs, outer pairs+cycles %.0fs, histories %.0fs" % (t1 - t0, t2 - t1, time.time() - t2))
@@ -768,6 +778,369 @@ def outer_cycles(ctx, d, n):
             ctx.violation("hash-respects-equal:cyclic", input=e, expected="equal hashes", observed=o, replay=replay_scm(e))
 
 
+# ------------------------------------------------------------------------------------------------ graphs (sharing, cycles)
+# A graph is a list of nodes ('P', a, d) | ('V', [ids]) | ('L', value); node id = index.  The SAME description is given to
+# the extracted model / SPEC (tokens) and turned into Scheme code that allocates every node once and then links them.
+def g_token(nodes, C):
+    out = []
+    for n in nodes:
+        if n[0] == "P":
+            out.append("P%d.%d" % (n[1], n[2]))
+        elif n[0] == "V":
+            out.append("V" + ".".join(str(i) for i in n[1]))
+        else:
+            out.append("L" + token(n[1], C))
+    return ";".join(out)
+
+
+def g_scheme(nodes, a, b, rng, C, call="c15-geq"):
+    binds, links = [], []
+    for i, n in enumerate(nodes):
+        if n[0] == "P":
+            binds.append("(n%d (cons #f #f))" % i)
+            links.append("(set-car! n%d n%d) (set-cdr! n%d n%d)" % (i, n[1], i, n[2]))
+        elif n[0] == "V":
+            binds.append("(n%d (make-vector %d #f))" % (i, len(n[1])))
+            links += ["(vector-set! n%d %d n%d)" % (i, k, j) for k, j in enumerate(n[1])]
+        else:
+            binds.append("(n%d %s)" % (i, expr(n[1], rng, C)))
+    return "(let* (%s) %s (%s n%d n%d))" % (" ".join(binds), " ".join(links), call, a, b)
+
+
+def g_reach(nodes, r):
+    seen, todo = [], [r]
+    while todo:
+        x = todo.pop()
+        if x in seen:
+            continue
+        seen.append(x)
+        n = nodes[x]
+        todo += [n[2], n[1]] if n[0] == "P" else (list(reversed(n[1])) if n[0] == "V" else [])
+    return seen
+
+
+def g_from_term(t):
+    """term: ('P', x, y) | ('V', [x..]) | ('L', value) | ('def', name, term) | ('ref', name) | small ints / strings as leaves"""
+    nodes, names, fix = [], {}, []
+
+    def go(t):
+        if isinstance(t, int):
+            t = ("L", ("int", t))
+        elif isinstance(t, str):
+            t = ("L", ("str", tuple(ord(c) for c in t)))
+        elif isinstance(t, bytes):
+            t = ("L", ("bv", t))
+        if t[0] == "ref":
+            return ("ref", t[1])
+        if t[0] == "def":
+            i = go(t[2])
+            names[t[1]] = i
+            return i
+        i = len(nodes)
+        nodes.append(None)
+        if t[0] == "L":
+            nodes[i] = ("L", t[1])
+        elif t[0] == "P":
+            nodes[i] = ["P", go(t[1]), go(t[2])]
+        else:
+            nodes[i] = ["V", [go(x) for x in t[1]]]
+        return i
+    root = go(t)
+
+    def res(x):
+        return names[x[1]] if isinstance(x, tuple) else x
+    out = []
+    for n in nodes:
+        if n[0] == "P":
+            out.append(("P", res(n[1]), res(n[2])))
+        elif n[0] == "V":
+            out.append(("V", [res(x) for x in n[1]]))
+        else:
+            out.append(n)
+    return out, root
+
+
+def t_list(items, tail=("L", ("imm", "()"))):
+    for x in reversed(items):
+        tail = ("P", x, tail)
+    return tail
+
+
+def t_circ(prefix, cycle, name="c"):
+    """circular list: prefix then cycle forever"""
+    body = ("ref", name)
+    for x in reversed(cycle[1:]):
+        body = ("P", x, body)
+    body = ("def", name, ("P", cycle[0], body))
+    for x in reversed(prefix):
+        body = ("P", x, body)
+    return body
+
+
+def g_templates(rng):
+    """base graphs: circular lists, self-containing vectors, mutually recursive pairs/vectors, DAGs with sharing, and
+    trees/vectors placed before / after / around a cyclic part in depth-first order"""
+    circ = lambda: t_circ([rng.randrange(3) for _ in range(rng.randrange(0, 3))], [rng.randrange(3) for _ in range(rng.randrange(1, 4))])
+    selfvec = ("def", "s", ("V", [1, t_list([2]), ("ref", "s"), t_list([3])]))
+    tree = lambda: rng.choice([("V", [1, 2, 3]), ("V", [1, t_list([2, 3]), "ab", b"\x01\x02"]), t_list([1, ("V", [2, 3]), "xy"]),
+                               ("V", [("V", [1, 2]), ("V", [3, 4, 5])]), ("V", [7]), t_list([("V", [b"\x05\x06\x07", "abc", 9])])])
+    T = [
+        ("P", circ(), tree()),                                   # difference AFTER the cyclic part
+        ("P", tree(), circ()),                                   # before
+        ("V", [tree(), circ(), tree()]),                         # around
+        ("P", selfvec, tree()),
+        selfvec,
+        ("def", "s", ("V", [("ref", "s"), 1, 2])),
+        ("def", "s", ("V", [1, 2, ("ref", "s")])),
+        ("def", "p", ("P", 1, ("def", "v", ("V", [2, ("ref", "p"), ("ref", "v"), ("P", 3, ("ref", "p"))])))),
+        ("def", "p", ("P", ("def", "v", ("V", [("ref", "p"), ("V", [1, 2])])), ("P", ("ref", "v"), tree()))),
+        ("P", ("def", "x", t_list([1, 2])), ("V", [("ref", "x"), ("ref", "x"), ("P", ("ref", "x"), ("ref", "x"))])),
+        ("P", ("def", "c", ("P", ("V", [1, ("ref", "c")]), ("ref", "c"))), ("V", [1, 2])),
+        ("V", [("def", "c", ("P", 0, ("ref", "c"))), ("def", "d", ("P", 0, ("P", 0, ("ref", "d")))), tree()]),
+    ]
+    return T
+
+
+def g_random(rng, n):
+    nodes = []
+    for i in range(n):
+        c = rng.random()
+        if i == 0:
+            c = c * 0.7
+        if c < 0.45:
+            nodes.append(("P", rng.randrange(n), rng.randrange(n)))
+        elif c < 0.7:
+            nodes.append(("V", [rng.randrange(n) for _ in range(rng.choice([0, 1, 2, 3, 4]))]))
+        else:
+            nodes.append(("L", rng.choice([("int", rng.randrange(3)), ("int", rng.randrange(3)), gen_str(rng, 3), gen_bv(rng), ("char", rng.choice(CHARS)),
+                                           ("imm", rng.choice(list(IMMS))), gen_int(rng), gen_flo(rng)])))
+    return nodes, 0
+
+
+def g_copy(nodes, root, rng, share=0.0, splits=0):
+    """append a bisimilar variant of the part reachable from root: an isomorphic copy (a node is shared with the original
+    instead with probability `share`, never the root), then `splits` times a copied node is duplicated and some of the
+    references to it inside the copy are redirected to the duplicate.  Returns (nodes', root', ids of the copied nodes)."""
+    reach = g_reach(nodes, root)
+    m = {}
+    out = list(nodes)
+    for x in reach:
+        if x == root or rng.random() >= share:
+            m[x] = len(out)
+            out.append(None)
+    for x, y in m.items():
+        n = nodes[x]
+        if n[0] == "P":
+            out[y] = ("P", m.get(n[1], n[1]), m.get(n[2], n[2]))
+        elif n[0] == "V":
+            out[y] = ("V", [m.get(i, i) for i in n[1]])
+        else:
+            out[y] = n
+    copied = list(m.values())
+    for _ in range(splits):
+        t = rng.choice(copied)
+        refs = [(y, k) for y in copied for k, i in enumerate(out[y][1:3] if out[y][0] == "P" else (out[y][1] if out[y][0] == "V" else [])) if i == t]
+        if not refs:
+            continue
+        new = len(out)
+        out.append(out[t] if out[t][0] != "V" else ("V", list(out[t][1])))
+        copied.append(new)
+        for (y, k) in rng.sample(refs, rng.randrange(1, len(refs) + 1)):
+            if out[y][0] == "P":
+                l = list(out[y])
+                l[1 + k] = new
+                out[y] = tuple(l)
+            else:
+                out[y][1][k] = new
+    return out, m[root], copied
+
+
+def g_mutants(nodes, copied, rng, uniq):
+    """every single-position change of the copied part: (description, nodes')"""
+    res = []
+
+    def fresh(out):
+        out.append(("L", ("int", 900000 + next(uniq))))
+        return len(out) - 1
+    for y in copied:
+        n = nodes[y]
+        if n[0] == "P":
+            for k, nm in ((1, "car"), (2, "cdr")):
+                out = list(nodes)
+                l = list(n)
+                l[k] = fresh(out)
+                out[y] = tuple(l)
+                res.append(("%s of n%d" % (nm, y), out))
+            out = list(nodes)
+            l = list(n)
+            k = rng.choice([1, 2])
+            l[k] = rng.randrange(len(nodes))
+            if l[k] != n[k]:
+                out[y] = tuple(l)
+                res.append(("redirect slot %d of n%d" % (k - 1, y), out))
+        elif n[0] == "V":
+            for k in range(len(n[1])):
+                out = list(nodes)
+                sl = list(n[1])
+                sl[k] = fresh(out)
+                out[y] = ("V", sl)
+                cls = "last" if k == len(n[1]) - 1 else ("first" if k == 0 else "middle")
+                res.append(("%s slot %d of vector n%d" % (cls, k, y), out))
+            if n[1]:
+                out = list(nodes)
+                out[y] = ("V", list(n[1][:-1]))
+                res.append(("drop last slot of n%d" % y, out))
+            out = list(nodes)
+            out[y] = ("V", list(n[1]) + [fresh(out)])
+            res.append(("extra slot in n%d" % y, out))
+        else:
+            out = list(nodes)
+            v = mutate(n[1], rng)
+            if v != n[1] and not has_nan(v):
+                out[y] = ("L", v)
+                res.append(("leaf n%d %s" % (y, n[1][0]), out))
+    return res
+
+
+GEQ_PRELUDE = r"""
+(define (c15-res r) (if r (number->string r 16) "F"))
+(define (c15-geq a b)
+  (let* ((r1 (equal?/bounded a b 10000 10000)) (r2 (equal?/bounded b a 10000 10000))
+         (e1 (equal? a b)) (e2 (equal? b a)))
+    (string-append (c15-b e1) (c15-b e2) (c15-b (equal? b b)) " " (c15-res r1) " " (c15-res r2) " "
+                   (c15-b (or (not e1) (= (hash a) (hash b)))))))
+"""
+GEQ_IMPORTS = "(import (only (chibi) equal?/bounded))"
+
+
+def graphs(ctx, d, exe, C, nbase, nrand, big):
+    """(scheme base) equal? = bounded C pass, then lib/chibi/equiv.scm, on data with sharing and cycles, against
+    (1) the SPEC: bisimilarity decided by the extracted bisim_dec (small graphs) -> VIOLATION
+    (2) the extracted REGENERATED equiv? / equal_top given the bounded pass's answer -> broken (correspondence)."""
+    import itertools
+    rng = ctx.rng
+    uniq = itertools.count()
+    cases = []      # (family, description, nodes, a, b, by_construction)
+    bases = []
+    for r in range(nbase):
+        for ti, t in enumerate(g_templates(rng)):
+            nodes, root = g_from_term(t)
+            bases.append(("template%d" % ti, nodes, root))
+    for r in range(nrand):
+        nodes, root = g_random(rng, rng.choice([3, 4, 5, 6, 8]))
+        bases.append(("random", nodes, root))
+    for fam, nodes, root in bases:
+        full, broot, copied = g_copy(nodes, root, rng, share=rng.choice([0.0, 0.0, 0.3]), splits=rng.choice([0, 0, 1, 2]))
+        cases.append((fam, "bisimilar variant", full, root, broot, True))
+        muts = g_mutants(full, copied, rng, uniq)
+        if fam == "random" and len(muts) > 6:
+            muts = rng.sample(muts, 6)
+        for desc, out in muts:
+            cases.append((fam, desc, out, root, broot, None))
+    # DAGs whose unfolding exceeds the bounded pass (2^k leaves) but which have few nodes: model + by-construction
+    dag_cases = []
+    for k in (14, 16):
+        for variant in range(4):
+            t = ("V", [1, 2, 3])
+            for _ in range(k):
+                t = ("P", ("def", "x%d" % next(uniq), t), ("ref", "x%d" % (next(uniq) - 1)))
+            nodes, root = g_from_term(t)
+            full, broot, copied = g_copy(nodes, root, rng)
+            if variant == 0:
+                dag_cases.append(("dag%d" % k, "bisimilar variant", full, root, broot, True))
+            else:
+                vec = [y for y in copied if full[y][0] == "V"][0]
+                out = list(full)
+                sl = list(full[vec][1])
+                sl[{1: 0, 2: 1, 3: 2}[variant]] = len(out)
+                out.append(("L", ("int", 900000 + next(uniq))))
+                out[vec] = ("V", sl)
+                dag_cases.append(("dag%d" % k, "%s slot of the shared vector" % ["first", "middle", "last"][variant - 1], out, root, broot, False))
+    exprs = [g_scheme(n, a, b, rng, C) for (_, _, n, a, b, _) in cases + dag_cases]
+    # large acyclic data over the node bound of the C pass: by construction only
+    bigs = []
+    for n in big:
+        pre = "(let* ((l1 (make-list %d 1)) (l2 (make-list %d 1))" % (n, n)
+        for nm, ta, tb, same in (
+                ("equal vector after", "(vector 1 2 3)", "(vector 1 2 3)", True),
+                ("last slot after", "(vector 1 2 3)", "(vector 1 2 4)", False),
+                ("first slot after", "(vector 1 2 3)", "(vector 0 2 3)", False),
+                ("middle slot after", "(vector 1 2 3)", "(vector 1 0 3)", False),
+                ("last slot of a one-slot vector after", "(vector (list 1))", "(vector (list 2))", False),
+                ("bytevector byte after", "(list (bytevector 1 2 3))", "(list (bytevector 1 2 4))", False),
+                ("string char after", "(list (string #\\a #\\b))", "(list (string #\\a #\\c))", False),
+                ("cdr deep after", "(list 1 2 (list 3 4))", "(list 1 2 (list 3 5))", False),
+                ("car after", "(list (list 1) 2)", "(list (list 0) 2)", False),
+                ("nested vector last slot after", "(vector 1 (vector 2 (vector 3 4)))", "(vector 1 (vector 2 (vector 3 5)))", False)):
+            for shape in ("(cons l1 %s)|(cons l2 %s)", "(vector l1 %s)|(vector l2 %s)", "(list l1 l1 %s)|(list l2 l2 %s)"):
+                sa, sb = shape.split("|")
+                bigs.append(("big%d" % n, nm + " " + sa, "%s (a %s) (b %s)) (c15-geq a b))" % (pre, sa % ta, sb % tb), same))
+        bigs.append(("big%d" % n, "list element in the tail", "(let* ((a (make-list %d 1)) (b (make-list %d 1))) (set-car! (list-tail b %d) 2) (c15-geq a b))" % (n, n, n - 1), False))
+        bigs.append(("big%d" % n, "equal lists", "(let* ((a (make-list %d 1)) (b (make-list %d 1))) (c15-geq a b))" % (n, n), True))
+    exprs += [e for (_, _, e, _) in bigs]
+    out = [unquote(x) for x in scm.run_cases(d, exprs, prelude_extra=PRELUDE + GEQ_PRELUDE, imports=IMPORTS + GEQ_IMPORTS, chunk=400, timeout=900)]
+    # the extracted side
+    greq = ["geq %s %d %d" % (g_token(n, C), a, b) for (_, _, n, a, b, _) in cases] + ["gmod %s %d %d" % (g_token(n, C), a, b) for (_, _, n, a, b, _) in dag_cases]
+    gm = ctx.run_model(exe, greq)
+    slow = 0
+    treq, tmeta = [], []
+    allc = [(f, dsc, e, o, m) for ((f, dsc, _, _, _, _), e, o, m) in zip(cases + dag_cases, exprs, out, gm)] + \
+           [(f, dsc, e, o, None) for ((f, dsc, e, _), o) in zip(bigs, out[len(cases) + len(dag_cases):])]
+    byc = [c[5] for c in cases + dag_cases] + [b[3] for b in bigs]
+    for k, ((fam, desc, e, o, m), constr) in enumerate(zip(allc, byc)):
+        f = (o or "").split(" ")
+        if o is None or o.startswith(("ERR", "CRASH", "TIMEOUT")) or len(f) != 4 or len(f[0]) != 3:
+            ctx.count(1, key=e)
+            ctx.violation("equal?:graph:no-answer", input=e, family=fam, position=desc, expected="an answer", observed=o, replay=replay_geq(e))
+            continue
+        model = spec = None
+        if m is not None:
+            mf = m.split(" ")
+            model = mf[0]
+            spec = (mf[1] == "1") if len(mf) > 1 else None
+        if spec is None:
+            spec = constr if constr is not None else (model == "1")
+        elif constr is not None and constr != spec:
+            ctx.broken("generator:graphs", "a pair built as %s is decided %s by the SPEC: %s" % (constr, spec, e[:300]))
+            continue
+        took_slow = any(x != "F" and int(x, 16) <= 0 for x in f[1:3])
+        slow += took_slow
+        ctx.count(1, key=e, nontrivial=took_slow)
+        ctx.cov["traces_validated_against_impl"] += 1
+        exp = "1" if spec else "0"
+        cls = ("cyclic-or-shared" if not fam.startswith("big") else "large") + (":false-positive" if not spec else ":false-negative")
+        if f[0][0] != exp or f[0][1] != exp or f[0][2] != "1":
+            ctx.violation("equal?:graph:%s" % cls, input=e, family=fam, position=desc, expected="equal? = %s in both orders, reflexive" % exp,
+                          observed=o, slow_path=took_slow, replay=replay_geq(e))
+            continue
+        bad = [x for x in f[1:3] if (x == "F" and spec) or (x != "F" and int(x, 16) > 0 and not spec)]
+        if bad:
+            ctx.violation("equal?/bounded:graph:unsound", input=e, family=fam, position=desc, expected="#f only for different data, a positive bound only for equal data",
+                          observed=o, replay=replay_geq(e))
+            continue
+        if f[3] != "1":
+            ctx.violation("hash-respects-equal:graph", input=e, family=fam, position=desc, expected="equal hashes for equal? data", observed=o, replay=replay_geq(e))
+            continue
+        if model is not None:
+            # the regenerated model of the slow path must give the implementation's answer from the bounded pass's answer
+            n, a, b = (cases + dag_cases)[k][2:5]
+            treq.append("gtop %s %s %d %d" % (g_token(n, C), f[1], a, b))
+            tmeta.append((e, f[0][0], model, exp))
+    tm = ctx.run_model(exe, treq) if treq else []
+    for (e, impl, model, exp), t in zip(tmeta, tm):
+        if t != impl or (model != exp):
+            ctx.broken("correspondence:equiv", "the regenerated model of lib/chibi/equiv.scm differs (equiv? alone: %s, equal_top: %s, implementation %s, SPEC %s) on %s" % (model, t, impl, exp, e[:400]))
+            break
+    ctx.note("graphs: %d cases (%d templates/random with every single-position mutant, %d DAG, %d large), %d took the slow path (bounded pass gave up)" % (
+        len(allc), len(cases), len(dag_cases), len(bigs), slow))
+    if allc:
+        ctx.sample(dict(kind="graph", family=allc[1][0], position=allc[1][1], expr=allc[1][2][:400], impl=allc[1][3], model_and_spec=allc[1][4]))
+
+
+def replay_geq(e):
+    return scm.PRELUDE + IMPORTS + GEQ_IMPORTS + PRELUDE + GEQ_PRELUDE + "\n(write %s)(newline)" % e
+
+
 # ------------------------------------------------------------------------------------------------ K-outer B
 def gen_universe(rng, kind):
     """list of (value, identity) — values may repeat (equivalent but distinct objects) except immediates"""
@@ -825,26 +1198,60 @@ def classes(vals, kind):
     return out
 
 
-def gen_ops(rng, nkeys, nops):
+def gen_ops(rng, nkeys, nops, immutable_aside=False):
+    """set / delete / update!/default / copy.  A copy (c: continue on the copy, the original is kept as the other table; k: the
+    copy is kept aside) is followed by a burst of set!/update!/delete on keys that are PRESENT (by index) in the table, on either
+    table (x swaps the two; never after k on an immutable copy): both tables are dumped after every operation."""
     ops, val = [], 1
     pdel = rng.choice([0.1, 0.25, 0.45])
-    for _ in range(nops):
-        c = rng.random()
-        k = rng.randrange(nkeys)
-        if c < pdel:
+    present, other_present = set(), None
+    can_swap, burst = False, 0
+
+    def one(k, kind):
+        nonlocal val
+        if kind == "d":
             ops.append(("d", k))
-        elif c < pdel + 0.05:
-            ops.append(("c",))
-        elif c < pdel + 0.15:
+            present.discard(k)
+        elif kind == "u":
             ops.append(("u", k, rng.randrange(0, 1000)))
+            present.add(k)
         else:
             val += 1
             ops.append(("s", k, val))
-    return ops
+            present.add(k)
+    while len(ops) < nops:
+        c = rng.random()
+        if burst > 0:
+            burst -= 1
+            if can_swap and rng.random() < 0.3:
+                ops.append(("x",))
+                present, other_present = other_present, present
+                continue
+            if present and rng.random() < 0.85:
+                one(rng.choice(sorted(present)), rng.choice("ssud"))
+                continue
+        k = rng.randrange(nkeys)
+        if c < pdel:
+            one(k, "d")
+        elif c < pdel + 0.06 and ops:
+            if rng.random() < 0.6:
+                ops.append(("c",))
+                other_present = set(present)
+                can_swap = True
+            else:
+                ops.append(("k",))
+                other_present = set(present)
+                can_swap = not immutable_aside
+            burst = rng.randrange(3, 9)
+        elif c < pdel + 0.16:
+            one(k, "u")
+        else:
+            one(k, "s")
+    return ops[:nops]
 
 
 def ops_model(ops):
-    return ";".join({"s": lambda o: "s%d:%x" % (o[1], o[2]), "d": lambda o: "d%d" % o[1], "c": lambda o: "c", "u": lambda o: "u%d:%x" % (o[1], o[2])}[o[0]](o) for o in ops) or "_"
+    return ";".join({"s": lambda o: "s%d:%x" % (o[1], o[2]), "d": lambda o: "d%d" % o[1], "c": lambda o: "c", "k": lambda o: "k", "x": lambda o: "x", "u": lambda o: "u%d:%x" % (o[1], o[2])}[o[0]](o) for o in ops) or "_"
 
 
 def ops_scheme(ops):
@@ -862,7 +1269,7 @@ def histories(ctx, d, exe, C, counts):
         heap_eq = kind == 0 and rng.random() < 0.4
         vals = gen_universe(rng, 2 if heap_eq else kind)
         nops = rng.choice([5, 20, 60, 120]) if h % 25 else 500
-        ops = gen_ops(rng, len(vals), nops)
+        ops = gen_ops(rng, len(vals), nops, immutable_aside=api125)
         if api125:
             mk = KINDS125[kind]
         elif kind == 2:
@@ -891,20 +1298,28 @@ def histories(ctx, d, exe, C, counts):
         regrows = len(set(s.split("/")[1] for s in steps)) - 1
         ctx.count(len(steps), key=e, nontrivial=regrows >= 1)
         bad = None
-        for j, (s, m) in enumerate(zip(steps, msteps)):
-            sz, nb, al, lk = s.split("/")
-            msz, mal, mlk = m.split("/")
-            if lk != mlk:
-                bad = ("lookup", j, "lookups %s" % mlk, "lookups %s" % lk)
-            elif sz != msz:
-                bad = ("size", j, "size %s" % msz, "size %s" % sz)
-            else:
-                # as sets of (class of key, value); the stored key must be the first one inserted of its class (SRFI 69 leaves it open: not compared)
-                cl = mreq[i].split(" ")[1].split(",")
-                ia = sorted((cl[int(x.split(":")[0])], x.split(":")[1]) for x in al.split(",") if x) if "-1" not in al else None
-                ma = sorted((cl[int(x.split(":")[0])], x.split(":")[1]) for x in mal.split(",") if x)
-                if ia != ma:
-                    bad = ("alist", j, "alist %s" % mal, "alist %s" % al)
+        cl = mreq[i].split(" ")[1].split(",")
+        for j, (s2, m2) in enumerate(zip(steps, msteps)):
+            ss, ms = s2.split("&"), m2.split("&")
+            if len(ss) != len(ms):
+                bad = ("tables", j, "%d tables" % len(ms), "%d tables" % len(ss))
+                break
+            for w, (s, m) in enumerate(zip(ss, ms)):
+                which = ("current table" if w == 0 else "OTHER table (original / copy not operated on)")
+                sz, nb, al, lk = s.split("/")
+                msz, mal, mlk = m.split("/")
+                if lk != mlk:
+                    bad = ("lookup" if w == 0 else "copy-shares-state:lookup", j, "%s: lookups %s" % (which, mlk), "%s: lookups %s" % (which, lk))
+                elif sz != msz:
+                    bad = ("size" if w == 0 else "copy-shares-state:size", j, "%s: size %s" % (which, msz), "%s: size %s" % (which, sz))
+                else:
+                    # as sets of (class of key, value); the stored key must be the first one inserted of its class (SRFI 69 leaves it open: not compared)
+                    ia = sorted((cl[int(x.split(":")[0])], x.split(":")[1]) for x in al.split(",") if x) if "-1" not in al else None
+                    ma = sorted((cl[int(x.split(":")[0])], x.split(":")[1]) for x in mal.split(",") if x)
+                    if ia != ma:
+                        bad = ("alist" if w == 0 else "copy-shares-state:alist", j, "%s: alist %s" % (which, mal), "%s: alist %s" % (which, al))
+                if bad:
+                    break
             if bad:
                 break
         if bad is None and len(steps) != len(msteps):
